@@ -28,6 +28,8 @@ type ordAssume struct {
 	call func(c *ssa.Call) (ordVal, bool)
 	// val: assumed value of anything else the function reads (a boolean field of an input, …)
 	val func(v ssa.Value) (ordVal, bool)
+	// callv: like call, with the arguments as evaluated on the path taken (an argument chosen into a local is a φ)
+	callv func(c *ssa.Call, args []ordVal) (ordVal, bool)
 }
 
 type ordVal struct {
@@ -173,6 +175,16 @@ func ordEval(fn *ssa.Function, env map[ssa.Value]ssa.Value, as ordAssume, depth 
 			case *ssa.Call:
 				if as.call != nil {
 					if r, ok := as.call(t); ok {
+						vals[t] = r
+						continue
+					}
+				}
+				if as.callv != nil {
+					var av []ordVal
+					for _, a := range t.Call.Args {
+						av = append(av, eval(a))
+					}
+					if r, ok := as.callv(t, av); ok {
 						vals[t] = r
 						continue
 					}
